@@ -138,8 +138,26 @@ pub fn verify_with<B: SField, H: ElementHasher<BaseField = B> + Sync + Send, R: 
     let r = guarded(|| verify::<ShapeAir<B>, H, R>(proof, inputs, &AcceptableOptions::MinConjecturedSecurity(0)));
     match r {
         Ok(Ok(())) => Ok(()),
-        Ok(Err(e)) => Err(format!("rejected: {e}")),
+        Ok(Err(e)) => Err(format!("rejected: {e} <<{e:?}>>")),
         Err(p) => Err(format!("panic@{}", panic_key(&p))),
+    }
+}
+
+/// the variant of VerifierError behind a "rejected: ..." outcome of verify_with (e.g. "FriVerificationFailed(LayerCommitmentMismatch)")
+pub fn error_class(e: &str) -> String {
+    match (e.rfind("<<"), e.rfind(">>")) {
+        (Some(a), Some(b)) if a + 2 <= b => {
+            let full = &e[a + 2..b];
+            // keep the variant names, drop payload values: ProofDeserializationError("..") -> ProofDeserializationError
+            let head: String = full.chars().take_while(|c| c.is_alphanumeric()).collect();
+            if head == "FriVerificationFailed" {
+                let inner: String = full[head.len()..].chars().skip(1).take_while(|c| c.is_alphanumeric()).collect();
+                format!("{head}/{inner}")
+            } else {
+                head
+            }
+        },
+        _ => "?".into(),
     }
 }
 
@@ -496,8 +514,16 @@ pub fn judge_bytes<B: SField, H: ElementHasher<BaseField = B> + Sync + Send>(
             if same { "accepted-same".into() } else { "accepted-different".into() }
         },
         Err(e) if e.starts_with("panic@") => format!("panic@verify/{}", &e[6..]),
-        Err(_) => "rejected".into(),
+        Err(e) => {
+            LAST_CLASS.with(|c| *c.borrow_mut() = error_class(&e));
+            "rejected".into()
+        },
     }
+}
+
+thread_local! {
+    /// error class of the last "rejected" outcome of judge_bytes
+    static LAST_CLASS: std::cell::RefCell<String> = std::cell::RefCell::new(String::new());
 }
 
 /// remainder + c * prod (x - x_s) over the queried points of the remainder domain, if its degree fits
@@ -565,11 +591,17 @@ impl Job for Mutate {
         };
         // structured mutations of Wire.tla
         let mut applied = 0usize;
+        let mut structured: Vec<Value> = vec![];
         for mu in &self.mutations {
             let chunk = if mu.field == "commitments" || mu.field.ends_with(".paths") { 32 } else { ext_bytes };
             if let Some(mb) = apply(&bytes, &sp, mu, chunk) {
                 applied += 1;
                 let o = judge_bytes::<B, H>(&mb, &bytes, poff, &b.inputs);
+                if o == "rejected" {
+                    structured.push(json!({"field": mu.field, "m": mu.m, "class": LAST_CLASS.with(|c| c.borrow().clone())}));
+                } else if o == "parse-error" {
+                    structured.push(json!({"field": mu.field, "m": mu.m, "class": "parse-error"}));
+                }
                 record(format!("{}:{}", mu.field, mu.m), o, &mut tally, &mut findings, mu.may_keep_content);
             }
         }
@@ -667,7 +699,7 @@ impl Job for Mutate {
                 }
             }
         }
-        json!({"id": sc.id, "prove": "ok", "honest": honest, "bytes": bytes.len(), "structured": applied, "bitflips": flips, "adaptive": adaptive, "colliding_nonce": colliding_nonce,
+        json!({"id": sc.id, "prove": "ok", "honest": honest, "bytes": bytes.len(), "structured": applied, "structured_classes": structured, "grind": sc.opts.grind, "bitflips": flips, "adaptive": adaptive, "colliding_nonce": colliding_nonce,
                "truncations": truncs, "tally": tally, "findings": findings})
     }
 }
